@@ -277,7 +277,7 @@ def rebondOk (E : Ising) (st mask : List Bool) (o o' : Op) : Bool :=
     let (u, v, _) := E.edges.getD b (0, 0, 0)
     o.tagDiag && decide (0 < wa) && decide (0 < E.opW o') && o'.vars == [u, v] &&
       o'.ins == [getB st' u, getB st' v] && o'.outs == o'.ins && o'.tagDiag && o'.const == o.const &&
-      decide (u ≠ v) && o.outs == o.ins
+      decide (u ≠ v) && o.outs == o.ins && decide (u < st.length) && decide (v < st.length)
   | none => false
 
 /-- an operator that is not on a boundary bond: `o'` must be `xorOp o …`; returns the
